@@ -211,6 +211,56 @@ pub fn unregistered_owner_case() -> impl Strategy<Value = RcCase> {
     })
 }
 
+/// Three parties: the owner hands clones to two other threads, which then clone / drop / read / hand back
+/// their handles against each other (non-owner against non-owner on the shared count word) while the owner
+/// drops, tests uniqueness, merges or exits.  Every count-word access is a switch point; the schedule lets
+/// the owner run first for a generated number of decisions and is random afterwards.
+pub fn three_party_case() -> impl Strategy<Value = RcCase> {
+    let other = || {
+        prop_oneof![
+            4 => any::<u8>().prop_map(Op::Clone),
+            4 => any::<u8>().prop_map(Op::Drop),
+            1 => any::<u8>().prop_map(Op::Read),
+            1 => any::<u8>().prop_map(|h| Op::Move(h, 0)),
+            1 => (any::<u8>(), 1u8..=2).prop_map(|(h, t)| Op::Move(h, t)),
+            1 => any::<u8>().prop_map(Op::StrongCount),
+        ]
+    };
+    let owner_late = prop_oneof![
+        3 => any::<u8>().prop_map(Op::Drop),
+        1 => any::<u8>().prop_map(Op::GetMut),
+        1 => any::<u8>().prop_map(Op::MakeMut),
+        1 => any::<u8>().prop_map(Op::TryUnwrap),
+        2 => any::<u8>().prop_map(Op::Clone),
+        2 => Just(Op::Merge),
+        1 => any::<u8>().prop_map(Op::Read),
+    ];
+    (
+        (1usize..=4, 1usize..=2, 1usize..=2),
+        prop::collection::vec(other(), 1..7),
+        prop::collection::vec(other(), 1..7),
+        prop::collection::vec(owner_late, 0..5),
+        0usize..30,
+        prop::collection::vec(any::<u8>(), 10..140),
+    )
+        .prop_map(|((clones, m1, m2), t1, t2, late, owner_first, random)| {
+            let mut t0: Vec<Op> = vec![];
+            for _ in 0..clones {
+                t0.push(Op::Clone(0));
+            }
+            for _ in 0..m1 {
+                t0.push(Op::Move(0, 1));
+            }
+            for _ in 0..m2 {
+                t0.push(Op::Move(0, 2));
+            }
+            t0.extend(late);
+            let mut schedule = vec![0u8; owner_first];
+            schedule.extend(random);
+            RcCase { threads: vec![t0, t1, t2], objects: 1, schedule, atomic_ops: false, unregistered: vec![] }
+        })
+}
+
 fn judge(ctx: &Ctx, c: &RcCase, mode: &str, limit: usize, counting: bool) -> PropResult {
     match run_case(mode, limit, c) {
         Err(status) => Err(Failure::new(
@@ -273,7 +323,10 @@ pub fn run(ctx: &Ctx, replay: Option<&str>) -> i32 {
         "histories over steel_rc::BiasedRc: 2-3 threads, 1-2 objects, up to 12 operations per thread from {clone, drop, move to \
          thread j, get_mut, make_mut, try_unwrap, strong_count, read, explicit merge}, thread exit (drop all + finish_thread_merge), \
          plus a schedule: the verif hook yields before every access of the count word and a token-passing scheduler picks the \
-         next thread from the generated schedule. thorough additionally enumerates ALL schedules of small histories. \
+         next thread from the generated schedule; besides the free-form histories there are three directed families: \
+         migration (handles move to a second thread and back), an owner that never registered a merge queue, and three \
+         parties (the owner hands clones to two threads that clone / drop against each other while it drops, tests \
+         uniqueness, merges or exits). thorough additionally enumerates ALL schedules of small histories. \
          Non-trivial = distinct (history, schedule) in which two threads held handles of one object at the same time and a \
          non-owner (slow path) operation or a queue merge happened.",
     );
@@ -297,6 +350,7 @@ pub fn run(ctx: &Ctx, replay: Option<&str>) -> i32 {
     }
     replay_tier::<RcCase>(ctx, "rc", &mut |c| judge(ctx, c, "run", 0, false));
     replay_tier::<RcCase>(ctx, "rc-migration", &mut |c| judge(ctx, c, "run", 0, false));
+    replay_tier::<RcCase>(ctx, "rc-three-party", &mut |c| judge(ctx, c, "run", 0, false));
     let total = ctx.n(300_000, 6_000_000);
     let fails = run_prop(ctx, "rc", || case(3, 12, 160), total, |_ws, c, counting| match judge(ctx, c, "run", 0, counting) {
         Err(f) => {
@@ -347,6 +401,27 @@ pub fn run(ctx: &Ctx, replay: Option<&str>) -> i32 {
         ok => ok,
     });
     report_failures(ctx, "rc-unregistered", fails);
+    let fails = run_prop(ctx, "rc-three-party", three_party_case, ctx.n(200_000, 4_000_000), |_ws, c, counting| match judge(ctx, c, "run", 0, counting) {
+        Err(f) => {
+            if let Some(k) = ctx.match_known(&f) {
+                if counting {
+                    ctx.note_known_hit(&k.id);
+                }
+                Ok(())
+            } else if ctx.survey_case("rc-three-party", c, &f) {
+                Ok(())
+            } else {
+                Err(f)
+            }
+        }
+        ok => {
+            if counting && ok.is_ok() {
+                ctx.stats.class("three-party-history");
+            }
+            ok
+        }
+    });
+    report_failures(ctx, "rc-three-party", fails);
     if !ctx.quick() {
         // bounded-exhaustive part: every schedule of small histories
         let small = ctx.n(0, 3000);
